@@ -521,6 +521,13 @@ func (e *env) tr(x Expr) (Val, XT, error) {
 			return app("select", v.(string), is), *xt.E, nil
 		}
 		if xt.T != nil {
+			if mt, ok := xt.T.Underlying().(*types.Map); ok && sortOf(mt.Elem()) != "STRUCT" && sortOf(mt.Key()) != "STRUCT" {
+				mn, ms, dn, ds, _ := mapVars(xt.T)
+				m := v.(string)
+				cont := app("select", app("select", g.svGet(e.st, mn, ms), m), iv.(string))
+				dom := and(not(app("=", m, "null")), app("select", app("select", g.svGet(e.st, dn, ds), m), iv.(string)))
+				return app("ite", dom, cont, zeroOfSort(sortOf(mt.Elem()))), xtOf(mt.Elem()), nil
+			}
 			if sl, ok := xt.T.Underlying().(*types.Slice); ok {
 				s := v.(string)
 				ref := app("eref", s, iv.(string))
@@ -952,6 +959,24 @@ func (e *env) trCall(x *ECall) (Val, XT, error) {
 			return nil, XT{}, e.errf("elemaddr of non-slice")
 		}
 		return app("eref", v, iv), xtOf(types.NewPointer(sl.Elem())), nil
+	case "has":
+		// has(m, k): key k is present in Go map m
+		mv, mxt, err := argv(0)
+		if err != nil {
+			return nil, XT{}, err
+		}
+		kv, _, err := argv(1)
+		if err != nil {
+			return nil, XT{}, err
+		}
+		if mxt.T == nil {
+			return nil, XT{}, e.errf("has() of a non-map")
+		}
+		if _, ok := mxt.T.Underlying().(*types.Map); !ok {
+			return nil, XT{}, e.errf("has() of a non-map")
+		}
+		_, _, dn, ds, _ := mapVars(mxt.T)
+		return and(not(app("=", mv, "null")), app("select", app("select", g.svGet(e.st, dn, ds), mv), kv)), xtBool, nil
 	case "deref":
 		v, xt, err := argv(0)
 		if err != nil {
